@@ -532,6 +532,10 @@ class Engine(ExprMixin, BuiltinMixin):
         item = s.items[0]
         return self.exec_with(s, item, st, fx)
 
+    def st_BodyMarker(self, s, st, fx):
+        from .ctxmgr import exec_body_marker
+        return exec_body_marker(self, s, st, fx)
+
     def exec_with(self, s, item, st, fx):
         from .ctxmgr import exec_with
         return exec_with(self, s, item, st, fx)
